@@ -29,6 +29,7 @@ READS = {
     'add_global_array': {'max_length', 'add_label', 'const_data', 'state_data'},
     'label_for_string': {'string_labels', 'add_label'},
     'add_label': {'numbered_labels'},
+    'label_for_func': {'func_labels', 'add_label', 'func_queue'},
     'pack_bools': set(),
 }
 
@@ -41,7 +42,7 @@ def ob_frame():
         used = {n.attr for n in pyast.walk(node) if isinstance(n, pyast.Attribute) and isinstance(n.value, pyast.Name) and n.value.id == 'self'}
         extra = used - allowed
         if extra: bad.append({'function': fn, 'also_uses': sorted(extra), 'contract_allows': sorted(allowed)})
-    det = {'formula': 'reads/modifies clauses: add_global_array uses only max_length/add_label/const_data/state_data; label_for_string only string_labels/add_label; add_label only numbered_labels',
+    det = {'formula': 'reads/modifies clauses: add_global_array uses only max_length/add_label/const_data/state_data; label_for_string only string_labels/add_label; add_label only numbered_labels; label_for_func only func_labels/add_label/func_queue',
            'functions': [f'hidc.codegen.generator.CodeGen.{k}' for k in READS]}
     if bad: det.update(model=bad, replay=replay_pairs())
     return [Result('C13/global-data/frame', FAILED if bad else DISCHARGED, 'pyvc-syntactic', time.time() - t0, (), det)]
@@ -58,8 +59,7 @@ def decode(directive, w):
         else:
             size = w if it.kind == 'word' else 1
             for e in it.items:
-                if e[0] != 'int': raise ValueError(f'non-literal data item {e}')
-                out += (e[1] % (1 << (8 * size))).to_bytes(size, 'little')
+                out += (const_eval(e, w) % (1 << (8 * size))).to_bytes(size, 'little')
     return bytes(out)
 
 
@@ -210,10 +210,80 @@ def ob_strings(w):
     return [Result(f'C13/string-table/w{w}', FAILED if bad else DISCHARGED, 'enum+svm', time.time() - t0, (), det)]
 
 
+def const_eval(e, w):
+    k = e[0]
+    if k == 'int': return e[1]
+    if k == 'w': return e[1] * w
+    if k == 'neg': return -const_eval(e[1], w)
+    if k == 'add': return const_eval(e[1], w) + const_eval(e[2], w)
+    if k == 'sub': return const_eval(e[1], w) - const_eval(e[2], w)
+    if k == 'and': return const_eval(e[1], w) & const_eval(e[2], w)
+    raise ValueError(f'not a constant expression: {e!r}')
+
+
+def ob_scalars(w):
+    """make_global on a scalar initialiser / lookup_var on globals: a const scalar is used as an immediate whose value is the literal (wrapped to the
+    element size), a mutable one is a labelled word/byte in the state section initialised with it; globals are created once and shared by every use."""
+    ast, DT, AT, asm, generator, make_codegen, SPAN = mods()
+    from hidv.sphinx import svm
+    t0 = time.time(); bad = []; n = 0
+    M = 1 << (8 * w)
+    ints = sorted({0, 1, 2, 7, 255, 256, 257, M // 2 - 1, M - 1, -1, -2, -255, -256, -(M // 2)} | {(1 << k) for k in range(0, 8 * w - 1)} | {-(1 << k) for k in range(0, 8 * w)})
+    for const in (True, False):
+        for t, vals in ((DT.INT, ints), (DT.BYTE, list(range(256))), (DT.BOOL, [False, True])):
+            for v in vals:
+                n += 1
+                lit = {DT.INT: lambda: ast.IntValue(v, SPAN), DT.BYTE: lambda: ast.ByteValue(v, SPAN), DT.BOOL: lambda: ast.BoolValue(v, SPAN)}[t]()
+                cg = make_codegen(w, False)
+                try:
+                    acc = cg.make_global(lit, const=const, label_prefix='var_x')
+                except Exception as e:
+                    bad.append({'value': f'{t} {v}', 'raises': repr(e)}); continue
+                size = w if t == DT.INT else 1
+                want = (int(v) % (1 << (8 * size))).to_bytes(size, 'little')
+                if const:
+                    if not isinstance(acc, asm.Immediate): bad.append({'value': f'const {t} {v}', 'problem': f'not an immediate: {acc!r}'}); continue
+                    try:
+                        got = (const_eval(reader.parse_expr(bytes(acc)), w) % (1 << (8 * size))).to_bytes(size, 'little')
+                    except Exception as ex:
+                        got = repr(ex)
+                    if got != want: bad.append({'value': f'const {t} {v}', 'immediate': bytes(acc).decode(), 'problem': 'immediate does not denote the literal'})
+                else:
+                    lbl = getattr(acc, 'immed', None) or getattr(acc, 'label', None)
+                    d = cg.state_data.get(lbl)
+                    if d is None: bad.append({'value': f'{t} {v}', 'problem': f'no state data under {lbl!r}'}); continue
+                    if (t != DT.INT) != isinstance(acc, asm.StateByte): bad.append({'value': f'{t} {v}', 'problem': 'accessor width does not match the type'})
+                    try:
+                        got = decode(d, w)
+                    except Exception as ex:
+                        got = repr(ex)
+                    if got != want: bad.append({'value': f'{t} {v}', 'data': str(got), 'problem': 'initial data does not denote the literal'})
+            if len(bad) > 5: break
+    # whole pipeline: globals of every kind are created on first use, once, and every use sees the same storage
+    src = ('int g = -5; const int c = 7; byte b = 200; bool t = true; bool f = false; int[] arr = [1, 2]; const int[] ca = [3]; int z[3]; string s = "x"; '
+           'const string[] ss = ["a", "bc"]; byte[] by = [65, 66]; bool[] bl = [true, false, true, true, false, false, false, false, true];\n'
+           'empty bump() { g += 1; arr[0] += 10; z[1] = 9; b += 1; bl[1] = true; }\n'
+           'empty @is_you() { bump(); bump(); write(g); write(" "); write(c); write(" "); write(b is int); write(" "); write(t); write(f); write(" "); write(arr[0]); write(arr[1]); '
+           'write(" "); write(ca[0]); write(z[0]); write(z[1]); write(z[2]); write(s); write(ss[1]); write(by); write(" "); write(bl[0]); write(bl[1]); write(bl[8]); write(bl.length); }')
+    want = b'-3 7 202 truefalse 212 3090xbcAB truetruetrue9'
+    try:
+        res, vm = svm.run_hid(src, word_size=w)
+        if res != 'win' or vm.out != want:
+            bad.append({'program': src, 'end': res, 'flags': vm.flags, 'printed': vm.out.decode('latin1'), 'documented': want.decode()})
+    except Exception as e:
+        bad.append({'program': src, 'raises': repr(e)})
+    n += 1
+    det = {'formula': 'const scalar -> immediate denoting the literal; mutable scalar -> labelled state word/byte initialised with it; each global created once', 'domain': n,
+           'functions': ['hidc.codegen.generator.CodeGen.make_global', 'hidc.codegen.generator.CodeGen.lookup_var', 'hidc.codegen.asm.IntLiteral.__bytes__']}
+    if bad: det.update(model=bad[:4], replay={'reproduced': True, 'how': 'real make_global / hidc-compiled program on hidv.sphinx.svm', 'observed': bad[0]})
+    return [Result(f'C13/global-data/w{w}/scalars-and-sharing', FAILED if bad else DISCHARGED, 'enum+svm', time.time() - t0, (), det)]
+
+
 def tasks(tier):
     out = [task(MOD, 'ob_frame', ('C13', 'C18'), label='global/frame')]
     for w in ((2,) if tier == 'quick' else (2, 3, 4, 8)):
         out.append(task(MOD, 'ob_data', ('C13',), label=f'global/data/w{w}', w=w, cost=6))
         out.append(task(MOD, 'ob_pairs', ('C13',), label=f'global/pairs/w{w}', w=w, cost=4))
+        out.append(task(MOD, 'ob_scalars', ('C13', 'C01'), label=f'global/scalars/w{w}', w=w, cost=2))
         out.append(task(MOD, 'ob_strings', ('C13',), label=f'global/strings/w{w}', w=w, cost=2))
     return out
